@@ -1,0 +1,103 @@
+//go:build verif
+
+// Contracts for the verification framework in /verif (comment-only file; it is
+// compiled only with -tags verif and contributes no code). Syntax: DESIGN.md §3.
+
+package allocator
+
+// ---- bitmap.go: IPAllocator (C01, C05, C12) ----
+//
+// Abstract view: owner = indexToSubscriber (prefix index -> subscriber),
+// allocated is its inverse, the bitmap is the domain of owner, allocatedCount
+// is its cardinality. All fields are owned by mu.
+
+//@ type IPAllocator
+//@   owns mu: bitmap allocatedCount nextFree allocated indexToSubscriber
+//@   inv nonnil: self.bitmap != nil && self.totalPrefixes != nil && self.allocatedCount != nil && self.step != nil && self.nextFree != nil && self.allocated != nil && self.indexToSubscriber != nil
+//@   inv distinct: self.bitmap != self.allocatedCount && self.bitmap != self.nextFree && self.bitmap != self.totalPrefixes && self.bitmap != self.step && self.allocatedCount != self.nextFree && self.allocatedCount != self.totalPrefixes && self.allocatedCount != self.step && self.nextFree != self.totalPrefixes && self.nextFree != self.step
+//@   inv total: 1 <= bigval(self.totalPrefixes) && bigval(self.totalPrefixes) <= 9223372036854775807 && 1 <= bigval(self.step)
+//@   inv fwd: forall s string :: s in self.allocated ==> 0 <= self.allocated[s] && self.allocated[s] < bigval(self.totalPrefixes) && bit(self.bitmap, self.allocated[s]) && self.allocated[s] in self.indexToSubscriber && self.indexToSubscriber[self.allocated[s]] == s
+//@   inv rev: forall i uint64 :: i in self.indexToSubscriber ==> self.indexToSubscriber[i] in self.allocated && self.allocated[self.indexToSubscriber[i]] == i
+//@   inv bits: forall i mathint :: bit(self.bitmap, i) ==> 0 <= i && i < bigval(self.totalPrefixes) && i in self.indexToSubscriber
+//@   inv cnt: bigval(self.allocatedCount) == card(self.allocated) && card(self.allocated) == card(self.indexToSubscriber)
+
+//@ func NewIPAllocator
+//@   ensures err == nil ==> result != nil && result.nonnil && result.distinct
+//@   ensures err == nil ==> result.fwd && result.rev && result.bits && result.cnt
+//@   ensures err == nil ==> result.total
+//@   ensures err == nil ==> card(result.allocated) == 0 && forall i mathint :: !bit(result.bitmap, i)
+
+//@ func (a *IPAllocator) UnmarshalJSON
+//@   ensures err == nil ==> a.nonnil && a.distinct
+//@   ensures err == nil ==> a.fwd && a.rev && a.bits
+//@   ensures err == nil ==> a.cnt
+//@   ensures err == nil ==> a.total
+
+//@ func (a *IPAllocator) findFreeIndex
+//@   requires a.inv
+//@   modifies nothing
+//@   ensures err == nil ==> 0 <= result && result < bigval(a.totalPrefixes) && !bit(a.bitmap, result)
+//@   ensures err != nil ==> isErr(err, ErrPoolExhausted) && forall i mathint :: 0 <= i && i < bigval(a.totalPrefixes) ==> bit(a.bitmap, i)
+
+//@ loop IPAllocator.findFreeIndex#1
+//@   invariant start <= i && (i <= total || start >= total) && 0 <= start && start <= total
+//@   invariant forall j mathint :: start <= j && j < i ==> bit(a.bitmap, j)
+
+//@ loop IPAllocator.findFreeIndex#2
+//@   invariant 0 <= i && i <= start
+//@   invariant forall j mathint :: 0 <= j && j < i ==> bit(a.bitmap, j)
+
+//@ func addIPOffset
+//@   requires offset != nil
+//@   modifies nothing
+
+//@ func ipOffset
+//@   modifies nothing
+//@   ensures result != nil && fresh(result)
+
+//@ func (a *IPAllocator) getPrefixByIndex
+//@   modifies nothing
+//@   ensures result != nil && fresh(result)
+
+//@ func (a *IPAllocator) getIndexByPrefix
+//@   requires a.inv && prefix != nil
+//@   modifies nothing
+//@   ensures err == nil ==> 0 <= result && result < bigval(a.totalPrefixes)
+
+//@ func (a *IPAllocator) Allocate
+//@   ensures locked(subscriberID in a.allocated) ==> err == nil && result != nil
+//@   ensures locked(subscriberID in a.allocated) ==> dom(a.allocated) == locked(dom(a.allocated)) && vals(a.allocated) == locked(vals(a.allocated)) && dom(a.indexToSubscriber) == locked(dom(a.indexToSubscriber)) && vals(a.indexToSubscriber) == locked(vals(a.indexToSubscriber)) && bits(a.bitmap) == locked(bits(a.bitmap)) && bigval(a.allocatedCount) == locked(bigval(a.allocatedCount))
+//@   ensures !locked(subscriberID in a.allocated) && err == nil ==> result != nil && !locked(bits(a.bitmap))[a.allocated[subscriberID]] && !(a.allocated[subscriberID] in locked(dom(a.indexToSubscriber)))
+//@   ensures !locked(subscriberID in a.allocated) && err == nil ==> dom(a.allocated) == locked(dom(a.allocated))[subscriberID := true] && vals(a.allocated) == locked(vals(a.allocated))[subscriberID := a.allocated[subscriberID]]
+//@   ensures !locked(subscriberID in a.allocated) && err == nil ==> dom(a.indexToSubscriber) == locked(dom(a.indexToSubscriber))[a.allocated[subscriberID] := true] && vals(a.indexToSubscriber) == locked(vals(a.indexToSubscriber))[a.allocated[subscriberID] := subscriberID]
+//@   ensures !locked(subscriberID in a.allocated) && err == nil ==> bits(a.bitmap) == locked(bits(a.bitmap))[a.allocated[subscriberID] := true] && bigval(a.allocatedCount) == locked(bigval(a.allocatedCount)) + 1
+//@   ensures err != nil ==> isErr(err, ErrPoolExhausted) && !locked(subscriberID in a.allocated) && forall i mathint :: 0 <= i && i < bigval(a.totalPrefixes) ==> locked(bit(a.bitmap, i))
+//@   ensures err != nil ==> dom(a.allocated) == locked(dom(a.allocated)) && vals(a.allocated) == locked(vals(a.allocated)) && dom(a.indexToSubscriber) == locked(dom(a.indexToSubscriber)) && bits(a.bitmap) == locked(bits(a.bitmap)) && bigval(a.allocatedCount) == locked(bigval(a.allocatedCount))
+
+//@ func (a *IPAllocator) Release
+//@   ensures locked(subscriberID in a.allocated) ==> err == nil && dom(a.allocated) == locked(dom(a.allocated))[subscriberID := false] && dom(a.indexToSubscriber) == locked(dom(a.indexToSubscriber))[locked(a.allocated[subscriberID]) := false]
+//@   ensures locked(subscriberID in a.allocated) ==> bits(a.bitmap) == locked(bits(a.bitmap))[locked(a.allocated[subscriberID]) := false] && bigval(a.allocatedCount) == locked(bigval(a.allocatedCount)) - 1
+//@   ensures !locked(subscriberID in a.allocated) ==> isErr(err, ErrNotAllocated) && dom(a.allocated) == locked(dom(a.allocated)) && dom(a.indexToSubscriber) == locked(dom(a.indexToSubscriber)) && bits(a.bitmap) == locked(bits(a.bitmap)) && bigval(a.allocatedCount) == locked(bigval(a.allocatedCount))
+
+//@ func (a *IPAllocator) AllocateSpecific
+//@   requires prefix != nil
+//@   ensures err == nil ==> subscriberID in a.allocated
+//@   ensures err != nil ==> dom(a.allocated) == locked(dom(a.allocated)) && vals(a.allocated) == locked(vals(a.allocated)) && dom(a.indexToSubscriber) == locked(dom(a.indexToSubscriber)) && bits(a.bitmap) == locked(bits(a.bitmap)) && bigval(a.allocatedCount) == locked(bigval(a.allocatedCount))
+
+//@ func (a *IPAllocator) ReleasePrefix
+//@   requires prefix != nil
+
+//@ func (a *IPAllocator) SetAllocation
+//@   requires prefix != nil
+
+//@ func (a *IPAllocator) LookupByPrefix
+//@   requires prefix != nil
+
+//@ func (a *IPAllocator) IsAllocated
+//@   requires prefix != nil
+
+//@ func (a *IPAllocator) Lookup
+//@   ensures (result != nil) == locked(subscriberID in a.allocated)
+
+//@ func (a *IPAllocator) Stats
+//@   ensures allocated == locked(card(a.allocated)) % 18446744073709551616 && total == locked(bigval(a.totalPrefixes))
